@@ -11,7 +11,7 @@ had its conditions inverted.
 import ast
 import os
 
-from .absint import EMPTY, FALSE, NONE, NONEMPTY, NOTNONE, TOP, TRUE, DefaultDomain, Interp, Result, State, exc, unbox, val
+from .absint import EMPTY, FALSE, NONE, NONEMPTY, NOTNONE, TOP, TRUE, DefaultDomain, Interp, Result, State, exc, unbox, unbox_deep, val
 from .astutil import FUNC_TYPES, attr_chain, dotted, norm
 
 
@@ -688,6 +688,7 @@ class EffectDomain(DefaultDomain):
         if isinstance(fn, tuple) and fn[:1] == ("methodcaller",) and isinstance(arg, tuple) and arg[:1] == ("wobj",):
             name = f"{arg[1]}.{fn[1]}"
             log = st.get("ev.calls", ())
+            fn = fn[:2] + (tuple(unbox_deep(v, st) for v in fn[2]), tuple((k, unbox_deep(v, st)) for k, v in fn[3]))   # the arguments as they are at the time of the call
             outcomes = self.oracle(name, fn[2], fn[3]) if self.oracle is not None else None
             if outcomes is None:
                 outcomes = [("val", v) for v in self.results.get(name, [("ret", arg[1], fn[1])])] + [("exc", e) for e in self.raises.get(name, [])]
@@ -1087,6 +1088,21 @@ class EffectDomain(DefaultDomain):
                         else:
                             ok_ = False
                     out.append(val(self.joined_str(parts) if ok_ else NOTNONE, r.state))
+                return out
+        if isinstance(fa, ast.Attribute) and fa.attr in ("count", "index") and len(call.args) == 1 and not call.keywords and not any(isinstance(n_, ast.Call) for n_ in ast.walk(fa.value)):
+            # (a, b, c).count(x) / .index(x) on a sequence of constants
+            got = interp.eval_list([fa.value, call.args[0]], st, fr)
+            pys_ = [[self._py(unbox_deep(v, r.state)) for v in r.value] if r.kind == "val" else None for r in got]
+            if got and all(p_ is None or (p_[0][0] and isinstance(p_[0][1], tuple) and p_[1][0]) for p_ in pys_):
+                out = []
+                for r, p_ in zip(got, pys_):
+                    if p_ is None:
+                        out.append(r)
+                        continue
+                    try:
+                        out.append(val(self._abs(getattr(p_[0][1], fa.attr)(p_[1][1])), r.state))
+                    except ValueError:
+                        out.append(exc(("exc", "ValueError"), r.state))
                 return out
         if isinstance(fa, ast.Attribute) and fa.attr in self.PURE_STR_METHODS and not call.keywords and not any(isinstance(n_, ast.Call) for n_ in ast.walk(fa.value)):
             folded = []
